@@ -35,6 +35,7 @@ func init() {
 		mutant{"used not updated on consume", "bytes/mirrored_buffer.go", "\tb.used -= n\n\tif b.head += n;", "\tif b.head += n;", "C11-R3"},
 		mutant{"free space ignores the size", "bytes/mirrored_buffer.go", "\treturn b.size - b.used\n", "\treturn len(b.slice) - b.used\n", "C11-R3"},
 		mutant{"reset keeps the used count", "bytes/mirrored_buffer.go", "\tb.head = 0\n\tb.tail = 0\n\tb.used = 0\n}", "\tb.head = 0\n\tb.tail = 0\n}", "C11-R3"},
+		mutant{"first half mapped twice", "bytes/mirrored_buffer.go", "\tif err = remap(secondAddr); err != nil {", "\tif err = remap(firstAddr); err != nil {", "C11-R4"},
 		mutant{"second mapping at the wrong offset", "bytes/mirrored_buffer.go", "\t\tsecondAddr = uintptr(unsafe.Pointer(&b.slice[size]))", "\t\tsecondAddr = uintptr(unsafe.Pointer(&b.slice[size-1]))", "C11-R4"},
 		mutant{"reservation not doubled", "bytes/mirrored_buffer.go", "\tb.slice, err = mmapAllocate(2*size, prefault)", "\tb.slice, err = mmapAllocate(size, prefault)", "C11-R4"},
 		mutant{"private mapping", "bytes/mirrored_buffer.go", "\t\tflags := syscall.MAP_FIXED | syscall.MAP_SHARED", "\t\tflags := syscall.MAP_FIXED | syscall.MAP_PRIVATE", "C11-R4"},
@@ -364,6 +365,37 @@ func runC11(c *Ctx) {
 			})
 		}
 		c.check(okMap, fn, "mapping parameters", fn.Pos(), "size bytes, MAP_FIXED|MAP_SHARED, file offset 0", why)
+		// both addresses are actually mapped: the mapping routine is invoked once with each of them
+		{
+			var mapper *ssa.Function
+			for _, g := range all {
+				eachInstr(g, func(in ssa.Instruction) {
+					if call, ok := in.(*ssa.Call); ok && call.Call.StaticCallee() != nil && call.Call.StaticCallee().String() == "syscall.Syscall6" && isConstInt(call.Call.Args[0], sysMmap) {
+						mapper = g
+					}
+				})
+			}
+			mappedIdx := map[string]int{}
+			if mapper != nil && mapper != fn {
+				eachInstr(fn, func(in ssa.Instruction) {
+					call, ok := in.(*ssa.Call)
+					if !ok || len(call.Call.Args) == 0 {
+						return
+					}
+					mc, ok := resolveCell(strip(call.Call.Value)).(*ssa.MakeClosure)
+					if !ok || mc.Fn != mapper {
+						return
+					}
+					eachInstr(fn, func(x ssa.Instruction) {
+						ia, ok := x.(*ssa.IndexAddr)
+						if ok && loadOfField(ia.X, sliceF) && dependsOn(call.Call.Args[0], ia) {
+							mappedIdx[exprString(resolveLoadsOfCell(ia.Index), nil, 0)]++
+						}
+					})
+				})
+			}
+			c.check(mapper == fn || (len(mappedIdx) == 2 && mappedIdx["0"] == 1), fn, "both halves mapped", fn.Pos(), "the file is mapped once at each of the two addresses", fmt.Sprintf("the mapping routine is not invoked once with each of the two addresses (invoked for indices %v): one half of the ring keeps the anonymous memory and bytes written near the end do not appear at the start", mappedIdx))
+		}
 		// file truncated to size
 		trunc := false
 		for _, g := range all {
